@@ -22,7 +22,7 @@ pub fn meta() -> Meta {
             "each DashMap entry operation is atomic (the entry guard holds the shard lock for the statement)".into(),
             "hash seeds are a declared finite set owned by the LD_PRELOAD shim".into(),
         ],
-        exhaustive_when_uncapped: false,
+        exhaustive_when_uncapped: true, // the declared bounded space (all selections / the whole lattice / all histories up to the depth bound / all interleavings and configurations) is enumerated completely unless capped
     }
 }
 
